@@ -26,13 +26,20 @@ def gen_history(rng, n, watch=False):
     idxs = [0, 1, 2, 5, 2 ** 31 - 1] + ([] if watch else [H, H + 1, H + 44, 2 ** 32 - 1])
     for _ in range(n):
         r = rng.random()
+        # on a watch-only wallet a hardened step must be REFUSED; such failing requests are part of the history too
+        # (now and then), because what was handed out before must be unaffected by a later refusal
+        hard = watch and rng.random() < 0.25
+        if hard:
+            idxs_now = idxs + [H, H + 1]
+        else:
+            idxs_now = idxs
         if r < 0.12:
-            comps = [rng.choice(["0", "1", "2", "7"] + ([] if watch else ["44'", "0'", "1h", "84'"]))
+            comps = [rng.choice(["0", "1", "2", "7"] + (["1'", "0h"] if hard else []) + ([] if watch else ["44'", "0'", "1h", "84'"]))
                      for _ in range(rng.randint(0, 5))]
             ops.append("bp:" + sx("/".join(["M" if watch else "m"] + comps)))
             nh += 1 if comps else 0
         elif r < 0.3:
-            ops.append("ckd:%d:%d" % (rng.randrange(nh), rng.choice(idxs)))
+            ops.append("ckd:%d:%d" % (rng.randrange(nh), rng.choice(idxs_now)))
             nh += 1
         elif r < 0.38:
             a = rng.choice([0, 1, 5])
@@ -40,7 +47,7 @@ def gen_history(rng, n, watch=False):
             ops.append("gc:%d:%d:%d" % (rng.randrange(nh), a, b))
             nh += b - a
         elif r < 0.46:
-            is_ = [rng.choice(idxs) for _ in range(rng.randint(0, 3))]
+            is_ = [rng.choice(idxs_now) for _ in range(rng.randint(0, 3))]
             ops.append("dp:%d:%s" % (rng.randrange(nh), impl.lst(str, is_)))
             nh += 1 if is_ else 0
         elif r < 0.6:
@@ -63,6 +70,9 @@ def gen_history(rng, n, watch=False):
             ops.append("nw:" + rng.choice("01"))
         else:
             ops.append("root")
+    # held results: a sample of the nodes handed out during the history is looked at again at its end
+    for h in sorted(set(rng.randrange(max(1, min(nh, 12))) for _ in range(4))):
+        ops.append("xk:%d" % h)
     return ops
 
 
